@@ -138,13 +138,14 @@ func maxSweepSteps(tier string) int {
 }
 
 func c02Opts(tier string) (stdOpts, uint64) {
-	o := stdOpts{IMBound: 1, SeqL: 2, EntrySeqL: 1, EIPs: true, Forks: world.StandardForks(), Gas: 200000, MinShape: true}
+	o := stdOpts{IMBound: 1, SeqL: 2, EntrySeqL: 1, EIPs: true, Forks: world.StandardForks(), Gas: 200000, MinShape: true, SstoreSeq: true, Scn: true, ScnGas: 3_000_000}
 	full := uint64(64)
 	if tier == "thorough" {
 		o.IMBound = 2
 		o.SeqL = 3
 		o.FullShape = true
 		o.MinShape = false
+		o.ScnDeep = true
 		full = 2048
 	}
 	return o, full
@@ -181,6 +182,10 @@ func init() {
 			o, full := c02Opts(w.Tier)
 			sess := stdSession()
 			forEachStdCase(w, o, func(base *world.Case, family string) {
+				sess := sess
+				if family == "SCN" || family == "SSTORESEQ" {
+					sess = world.NewSession(base.Accounts)
+				}
 				variants := []*world.Case{base}
 				if base.Fork >= world.Berlin {
 					variants = append(variants, warmVariant(base))
